@@ -58,11 +58,12 @@ def scenario(r, it, tier, k, force=None):
         for _ in range(r.range(0, 2)):
             sim.send(caller, 0, r.below(3), 3, r.pick([0, 0, 1, 700, 3000]))
     sim.call(caller + mode_call, 0)
-    if r.chance(1, 5):      # the peer disconnects too
+    crossing = (not force) and k % 4 == 2        # both sides ask for the disconnect before either has heard of the other's request
+    if crossing or r.chance(1, 5):      # the peer disconnects too
         sim.call(("s" if caller == "c" else "c") + r.pick(["disc", "discnow"]), 0)
     # the frames emitted right after the call are lost
-    sim.run(r.range(0, 3) if not force else r.range(1, 3), dt, {"c2s": Net(loss=1000), "s2c": Net(loss=1000)})
-    after = r.pick(["lossy", "blackout", "clean", "clean"])
+    sim.run((r.range(0, 3) if not crossing else r.pick([0, 0, 1])) if not force else r.range(1, 3), dt, {"c2s": Net(loss=1000), "s2c": Net(loss=1000)})
+    after = r.pick(["lossy", "blackout", "clean", "clean"]) if not crossing else r.pick(["lossy", "clean", "clean"])
     nets2 = lossy if after == "lossy" else ({"c2s": Net(loss=1000), "s2c": Net(loss=1000)} if after == "blackout" else clean)
     sim.after = after
     sim.run(r.range(20, 60), dt, nets2)
